@@ -35,6 +35,47 @@ def json_problem(text):
         return '%s: ...%s...' % (e, t2[max(0, e.pos - 40):e.pos + 20] if hasattr(e, 'pos') else '')
 
 
+def top_level_fields(dump):
+    """'{a=+01;b={...};c=[2:..];}' -> {'a': '+01', 'b': '{...}', ...} (fields of the outermost table only)"""
+    out, depth, cur = {}, 0, ''
+    for ch in dump:
+        if ch in '{[':
+            depth += 1
+            if depth == 1: continue
+        elif ch in '}]':
+            depth -= 1
+            if depth == 0: break
+        if ch == ';' and depth == 1:
+            if '=' in cur:
+                k, v = cur.split('=', 1); out[k] = v
+            cur = ''
+        else:
+            cur += ch
+    return out
+
+
+def enum_value_mismatch(A, rootname, dump, text):
+    """old printer vs old reader on the enum-typed scalar fields of the root table: a number in the JSON must be the stored value read in
+    the enum's underlying type (an enum value the old schema does not know is printed numerically, unsigned types as unsigned numbers)."""
+    try:
+        doc = json.loads(text.decode('latin-1'))
+    except ValueError:
+        return None
+    if not isinstance(doc, dict): return None
+    t = [x for x in A['tables'] if x['name'] == rootname][0]
+    fields = top_level_fields(dump)
+    for f in t['fields']:
+        if f['kind'] != 'scalar' or not f.get('enum') or f.get('deprecated') or f['name'] not in doc: continue
+        jv, dv = doc[f['name']], fields.get(f['name'], '')
+        if isinstance(jv, bool) or not isinstance(jv, int) or not re.fullmatch(r'[+-][0-9a-f]+', dv): continue
+        lo, hi = c01gen.INT_RANGE[f['type']]
+        raw = int.from_bytes(bytes.fromhex(dv[1:]), 'little')
+        want = raw - (1 << (8 * len(dv[1:]) // 2)) if lo < 0 and raw > hi else raw
+        if jv != want:
+            return 'field %s (%s enum %s): stored value %d, printed as %d' % (f['name'], f['type'], f['enum'], want, jv)
+    return None
+
+
 def build(ctx, S, name, mask, fl, fl_assert=None):
     d = os.path.join(ctx.bdir, name); os.makedirs(d, exist_ok=True)
     fbs = os.path.join(d, name + '.fbs'); open(fbs, 'w').write(c01gen.render_fbs(S))
@@ -79,7 +120,7 @@ def run(ctx):
     nvals = 40 if ctx.thorough else 12
     for pi in range(npairs):
         r = random.Random(5000 + pi) if pi < npairs // 2 else rng
-        A, B = c01gen.evolve_pair(r, nstructs=r.randint(1, 3), ntables=r.randint(2, 4), nunions=r.randint(1, 2), nenums=r.randint(1, 3))
+        A, B = c01gen.evolve_pair(r, nstructs=r.randint(1, 3), ntables=r.randint(2, 4), nunions=r.randint(1, 2), nenums=r.randint(2, 3))
         na, nb = 'a%d' % pi, 'b%d' % pi
         ra, ea = build(ctx, A, na, None, fl, fl_assert)
         rb, eb = build(ctx, B, nb, A, fl)
@@ -142,6 +183,12 @@ def run(ctx):
                 continue
             a, ja = split_json(a); b, jb = split_json(b)
             rep = dict(rep0, harness_line=l, old_code=a[:2000], new_code=b[:2000])
+            if ja is not None and a.startswith('V 0 D ') and not json_problem(ja):
+                mm = re.match(r'V 0 D (.*) P (-?\d+)$', a)
+                bad = enum_value_mismatch(A, l.split()[1], mm.group(1), ja) if mm else None
+                if bad:
+                    ctx.violation('old-printer-value-differs', 'old JSON printer prints a value of the extended schema differently from what the old reader returns: ' + bad,
+                                  dict(rep, old_printer_text=ja.decode('latin-1')[:3000]))
             if ja is not None and json_problem(ja):
                 ctx.violation('old-printer-invalid-json', 'old JSON printer reports success on a buffer of the extended schema but its text is not JSON: %s' % json_problem(ja)[:200],
                               dict(rep, old_printer_text=ja.decode('latin-1')[:3000]))
